@@ -4,6 +4,7 @@
 # then be evaluated without touching /repo (useful while a long run is using it):
 #   tools/scratch_pair.sh setup
 #   tools/scratch_pair.sh eval <patch.diff> <Cxx> [Cxx...]     # lock-step and C19 checks (not C20's Miri engine)
+#   tools/scratch_pair.sh regress                               # every stored seeded change against its own property's quick check -> seeded/REGRESSION.txt
 #   tools/scratch_pair.sh remove
 set -u
 PAIR=/tmp/evalpair
@@ -27,6 +28,21 @@ case "${1:-}" in
       echo "check $prop quick: exit=$rc  $(echo "$out" | grep -m2 'signature:' | sed 's/.*signature: //' | tr '\n' ' ')"
     done
     git -C $PAIR/wt checkout -q -- .
+    ;;
+  regress)
+    OUT=/verif/seeded/REGRESSION.txt; : > $OUT.tmp
+    for d in /verif/seeded/*/; do
+      name=$(basename $d); [ -f $d/patch.diff ] || continue; prop=${name%%-*}
+      if grep -q '"status": "obsolete' $d/meta.json 2>/dev/null; then echo "$name $prop OBSOLETE (neutralised by a later library repair; see meta.json)" >> $OUT.tmp; continue; fi
+      cd $PAIR/wt && git checkout -q -- . && if ! git apply $d/patch.diff 2>/dev/null; then echo "$name $prop PATCH-DOES-NOT-APPLY" >> $OUT.tmp; continue; fi
+      if ! ( cd $PAIR/stamsim && CARGO_NET_OFFLINE=true cargo build --release --offline >/dev/null 2>&1 ); then echo "$name $prop BUILD-FAILED" >> $OUT.tmp; git -C $PAIR/wt checkout -q -- .; continue; fi
+      out=$(cd $PAIR/stamsim && VERIF_ROOT=$PAIR/root VERIF_MAX_REPORT=1 VERIF_MINIMISE_SECS=3 ./target/release/stamsim check $prop quick 2>/dev/null); rc=$?
+      sig=$(echo "$out" | grep -m1 'signature:' | sed 's/.*signature: //')
+      git -C $PAIR/wt checkout -q -- .
+      echo "$name $prop exit=$rc $sig" >> $OUT.tmp
+    done
+    ( cd $PAIR/stamsim && CARGO_NET_OFFLINE=true cargo build --release --offline >/dev/null 2>&1 )
+    mv $OUT.tmp $OUT; echo REGRESSION-DONE
     ;;
   remove)
     git -C /repo worktree remove --force $PAIR/wt 2>/dev/null; git -C /repo worktree prune; rm -rf $PAIR
